@@ -13,7 +13,7 @@ func init() { register("C05", runC05) }
 
 func runC05(r *Run) {
 	w := r.W
-	r.Explain = "Static decision of structural necessary conditions of C05 (voting power): the value formula is amount*price / 10^(asset decimals + price decimals) with the operands wired from the per-asset price and decimals lookups (comma-ok map reads, so a legitimate zero is not mistaken for a missing key); per operator the three values are reset, then self/total are assigned from the recomputation and the active value and the AVS accumulator are raised only when self >= the AVS minimum; the asset filter is the AVS's own supported-asset list; the recompute is atomic (cache context); the epoch hook recomputes every AVS whose identifier ended from the epoch preceding its starting epoch onwards (>= start-1) and skips an AVS on error; opt-in creates, opt-out deletes the value entry and a not-opted-in operator reads as zero; role-typed address arguments are not swapped."
+	r.Explain = "Static decision of structural necessary conditions of C05 (voting power): the value formula is amount*price / 10^(asset decimals + price decimals) with the operands wired from the per-asset price and decimals lookups (comma-ok map reads, so a legitimate zero is not mistaken for a missing key) and every per-asset value is added to the running figure of its field (the recorded values are sums over the supported assets); per operator the three values are reset, then self/total are assigned from the recomputation and the active value and the AVS accumulator are raised only when self >= the AVS minimum; the asset filter is the AVS's own supported-asset list; the recompute is atomic (cache context); the epoch hook recomputes every AVS whose identifier ended from the epoch preceding its starting epoch onwards (>= start-1) and skips an AVS on error; opt-in creates, opt-out deletes the value entry and a not-opted-in operator reads as zero; role-typed address arguments are not swapped."
 	r.NotDec = []string{"monotonicity in amounts and prices", "price freshness", "the value 'at the end of each epoch' as a temporal fact"}
 	r.Assume = []string{"sdk Int.Mul / Dec.QuoInt semantics"}
 	r.rule("C05.R1", "formula shape and operand wiring of CalculateUSDValue and all its call sites; comma-ok map lookups; every per-asset value added to the running sum", 11)
